@@ -836,6 +836,12 @@ def _literal_ok(e):
     if isinstance(e, ast.JoinedStr):  # a name template over plain references: f"results_{estimand}"
         return all(isinstance(p, ast.Constant) or (isinstance(p, ast.FormattedValue) and p.conversion == -1 and p.format_spec is None and _ref_chain(p.value))
                    for p in e.values)
+    if isinstance(e, ast.BoolOp):  # a pure test over references and constants: `flag and "margin" in self.estimands`
+        return all(_literal_ok(v) for v in e.values)
+    if isinstance(e, ast.UnaryOp) and isinstance(e.op, ast.Not):
+        return _literal_ok(e.operand)
+    if isinstance(e, ast.Compare):
+        return _literal_ok(e.left) and all(_literal_ok(c) for c in e.comparators)
     if isinstance(e, ast.Dict):
         return all(k is not None and isinstance(k, ast.Constant) and _literal_ok(v) for k, v in zip(e.keys, e.values))
     if isinstance(e, (ast.Tuple, ast.List)):
@@ -913,7 +919,7 @@ def unroll_object_loops(trees):
             if its:
                 names = set(its[0])
                 inner = [n for b in st.body for n in ast.walk(b)]
-                refs = [e for m in its for e in m.values() if _ref_chain(e)]
+                refs = [x for m in its for e in m.values() for x in ast.walk(e) if isinstance(x, (ast.Name, ast.Attribute)) and _ref_chain(x)]
                 refs += [p.value for m in its for e in m.values() for j_ in ast.walk(e) if isinstance(j_, ast.JoinedStr) for p in j_.values if isinstance(p, ast.FormattedValue)]
                 bad = any(isinstance(n, (ast.Break, ast.Continue, ast.Return, ast.FunctionDef, ast.Lambda, ast.AsyncFunctionDef, ast.Global, ast.Nonlocal)) for n in inner) \
                     or any(isinstance(n, ast.Name) and n.id in names and not isinstance(n.ctx, ast.Load) for n in inner) \
